@@ -584,6 +584,28 @@ mutual
         rw [← view_elem, skeleton_view, skeletonList_viewKids [] ks]
 end
 
+/-! ### for composition with the codec tier -/
+
+theorem wellFormed_text (s : Str) : wellFormed (.text s) = xmlSafeText s := by
+  simp [wellFormed, xmlSafeText]
+
+theorem wellFormed_elem (n : Str) (as : List (Str × Str)) (ks : List Node) :
+    wellFormed (.elem n as ks) =
+      (okName n && as.all (fun kv => okName kv.1 && xmlSafeAttr kv.2) && wellFormedList ks && noAdjText ks) := by
+  simp [wellFormed, xmlSafeAttr]
+
+/-- character level: every `XmlSafe` tree whose root is an element is read back exactly -/
+theorem parse_render_xmlSafe (t : Node) (he : t.isElem = true) (h : XmlSafe t) : parse (render t) = some t := by
+  cases t with
+  | text s => simp [Node.isElem] at he
+  | elem n as ks => rw [parse_render_view n as ks (namesOK_of_wellFormed _ h), view_of_wellFormed _ h]
+
+/-- without any condition on the strings: what comes back is `view t` -/
+theorem parse_render_any (t : Node) (he : t.isElem = true) (h : NamesOK t) : parse (render t) = some (view t) := by
+  cases t with
+  | text s => simp [Node.isElem] at he
+  | elem n as ks => exact parse_render_view n as ks h
+
 /-! ### `view` in terms of the shared `normalize` (Qx/Xml/Canon.lean) -/
 
 theorem mergeText_text (a : Str) (L : List Node) :
